@@ -94,6 +94,16 @@ fn environment_stage(ctx: &Ctx, prop: &str, rep: &mut Report) {
     } else {
         rep.stats.inconclusive(format!("environment stage: {} is missing (run ./setup.sh)", spy.display()));
     }
+    // standard error that cannot be written (a full device; a closed pipe behaves alike for `eprintln!`): diagnostics a
+    // library prints must not turn into a panic of the call that printed them. The harness prints nothing there.
+    match std::fs::OpenOptions::new().write(true).open("/dev/full") {
+        Ok(f) => {
+            cmd.stderr(Stdio::from(f));
+        }
+        Err(_) => {
+            cmd.stderr(Stdio::null());
+        }
+    }
     cmd.env("VCHECK_STAGE_CHILD", "environment").env("VERIF_THIN", "3").env("VERIF_SEED", format!("{}", (ctx.seed ^ 0xe57a6e) as i128)).env("VERIF_EVIDENCE_DIR", &evdir).stdin(Stdio::null());
     let out = match cmd.output() {
         Ok(o) => o,
@@ -155,7 +165,7 @@ fn environment_stage(ctx: &Ctx, prop: &str, rep: &mut Report) {
     rep.extra.push((
         "stage_environment".into(),
         json!({
-            "what": "same monitors, every third job of the quick workload, in a child process whose working directory contains files named like the relative image references of the workloads and whose environment was cleared and filled with a profile of commonly consulted variables (terminal colours and capabilities, locale, time zone, directories, verbosity, CI / reproducible-build markers, thread-pool sizes)",
+            "what": "same monitors, every third job of the quick workload, in a child process whose working directory contains files named like the relative image references of the workloads and whose standard error is a full device (every write fails), whose environment was cleared and filled with a profile of commonly consulted variables (terminal colours and capabilities, locale, time zone, directories, verbosity, CI / reproducible-build markers, thread-pool sizes)",
             "getenv_monitor": {"what": "LD_PRELOAD hook on getenv/secure_getenv in the same child: every distinct name consulted is logged; names that are not set (and are not the harness's, the Rust runtime's or the loader's) are answered with a truthy value; the wall clock jumps a day ahead at every reading and isatty(0..2) says yes (pseudo names <wall-clock>, <isatty> appear below when consulted)", "answer": answer,
                 "names_consulted_by_harness_or_runtime": harness_names, "other_names_consulted_and_set": consulted_set, "other_names_consulted_unset_and_answered": answered},
             "profile": which, "variables_set": profile.len(), "evaluations": evals, "violations": violations, "wall_s": (t0.elapsed().as_secs_f64() * 10.0).round() / 10.0,
